@@ -18,6 +18,7 @@ import (
 	"compress/gzip"
 	"net/http"
 	"strconv"
+	"strings"
 )
 
 // ResponseFilter determines if the response should be gzipped.
@@ -45,11 +46,13 @@ type SkipCompressedFilter struct{}
 // ShouldCompress returns true if served file is not already compressed
 // encodings via https://developer.mozilla.org/en-US/docs/Web/HTTP/Headers/Content-Encoding
 func (n SkipCompressedFilter) ShouldCompress(w http.ResponseWriter) bool {
-	switch w.Header().Get("Content-Encoding") {
-	case "gzip", "compress", "deflate", "br", "zstd":
-		return false
-	default:
+	switch strings.ToLower(w.Header().Get("Content-Encoding")) {
+	case "", "identity":
 		return true
+	default:
+		// gzip, compress, deflate, br, zstd, x-gzip, a list of codings...:
+		// whatever it is, the response is encoded already
+		return false
 	}
 }
 
